@@ -633,6 +633,7 @@ func (e *bsiExec) current(s int) map[int]int {
 
 func (e *bsiExec) run(c BCall) {
 	e.i++
+	markInflight(e.tr, e.i, c.Op)
 	ev := BEvent{BCall: c, Tr: e.tr, I: e.i, Obs: []BObs{}}
 	g0 := runtime.NumGoroutine()
 	fin := make(chan struct{})
